@@ -4,6 +4,29 @@ import os
 import stages, vlib
 
 
+def race_reports(out):
+    """-race output -> (reports with frames in /repo library packages, reports in harness code only); function names kept."""
+    import re
+    repo, own = [], []
+    for blk in re.split(r"={10,}\n", out):
+        if "DATA RACE" not in blk:
+            continue
+        lines = blk.splitlines()
+        frames = []
+        for i, l in enumerate(lines):
+            m = re.match(r"^\s+(/\S+\.go):(\d+)", l)
+            if m and i > 0:
+                fn = lines[i - 1].strip()
+                fn = re.sub(r"\([^()]*\)$", "", fn)          # drop the argument list
+                frames.append((fn, m.group(1), m.group(2)))
+        lib = [f for f in frames if "go-data-transfer/v2/" in f[0] and "/harness/" not in f[1]]
+        if lib:
+            repo.append({"funcs": [f[0].split("go-data-transfer/v2/")[-1] for f in lib][:8], "frames": ["%s %s:%s" % (f[0].split("/")[-1], os.path.basename(f[1]), f[2]) for f in lib][:8]})
+        else:
+            own.append(blk[:1500])
+    return repo, own
+
+
 def run(ctx):
     ctx.rule = ("Lock.tla: the library's lock/wait structure for one channel (adapter channel lock held across the call into the manager, GetByID waiting for queue + cleanup handler, handler taking the "
                 "channel lock, notifier with a subscriber calling back into the API): TLC deadlock search with all paths (finds the hook paths) and with the hook paths off (must be deadlock-free, "
@@ -35,6 +58,29 @@ def run(ctx):
         ctx.violation({"rule": "C20.noRace", "where": "stress"}, "data race reported by the race detector during concurrent stress", detail=r.stdout[-6000:])
     elif r.returncode != 0:
         raise vlib.Inconclusive("lockx TestStress failed:\n" + r.stdout[-3000:])
+    # callback storms on the REAL graphsync adapter (harness gstx) under the race detector
+    import importlib
+    c16 = importlib.import_module("props.c16")
+    bg = ctx.go_bin("gstx", race=True)
+    storm_r = ctx.path("c20-gst-storm-race.ndjson")
+    nst = 6 if ctx.quick() else 40
+    r = ctx.run_go(bg, "TestStorm", env={"VERIF_OUT": storm_r, "VERIF_STORMS": nst, "VERIF_RACE": "1", "GORACE": "halt_on_error=0"}, timeout=1500)
+    repo_r, own_r = race_reports(r.stdout)
+    if own_r:
+        raise vlib.Inconclusive("data race inside the harness itself:\n" + own_r[0])
+    if r.returncode != 0 and not repo_r:
+        raise vlib.Inconclusive("gstx TestStorm (-race) failed (rc=%d):\n%s" % (r.returncode, r.stdout[-3000:]))
+    seen = set()
+    for rep in repo_r:
+        funcs = sorted(set(rep["funcs"]))
+        key = {"rule": "C20.noRace", "where": "transport/graphsync", "funcs": [f for f in funcs if "ChannelsForPeer" in f][:1] or funcs[:3]}
+        if vlib.canon(key) in seen:
+            continue
+        seen.add(vlib.canon(key))
+        ctx.violation(key, "data race reported by the race detector in the graphsync adapter: %s" % rep["frames"][:4], detail=rep)
+    ctx.extra["adapter_storms_under_race"] = nst
+    ctx.extra["adapter_race_reports"] = len(repo_r)
+    ctx.evaluations += nst
     both = ctx.path("lock-obs.ndjson")
     with open(both, "w") as f:
         for p in (out1, out2):
